@@ -8,6 +8,10 @@
 (*               /<P>/data/<id>                      object data           *)
 (*               /<P>/indexes/id/<id>                unique id index       *)
 (*               /<P>/indexes/a/<a>/<id>             non-unique index on a *)
+(*               /<P>/indexes/u/<u>                  unique secondary index *)
+(*                 u = UVal(o): "" for (id "a", a "x"), else id \o a - an   *)
+(*                 optional alias; the empty string is a legal value and   *)
+(*                 a legal ID (its index key is the index directory + "")  *)
 (*             Keys are sequences of path segments.  Data keys are built   *)
 (*             by plain concatenation (dataPrefix + id); index keys are    *)
 (*             built by indexKey().  The pinned code runs the whole index  *)
@@ -17,6 +21,9 @@
 (*             One action per storage transaction step:                    *)
 (*               Begin(op)  GetTx + exists/replace rules -> reject, or open *)
 (*                          a tx with the op's write sequence              *)
+(*               Continue(op) a further CreateTx/PutTx/ReplaceTx/DeleteTx/  *)
+(*                          RebuildTx inside the same store.Update, reading *)
+(*                          the transaction's own writes (up to MaxTxOps)   *)
 (*               TxWrite    next tx.Put / tx.Delete on the tx's private copy *)
 (*               TxFail     that write (or the commit) fails -> error ->    *)
 (*                          DoUpdate's deferred Rollback                    *)
@@ -35,23 +42,33 @@ CONSTANTS
     SegOrder,       \* every path segment that can occur, in ascending byte order
     GlobTable,      \* [pattern |-> set of IDs that path.Match(pattern, id) accepts]
     Grid,           \* set of list queries [idx, pat, off, lim, rev]
+    TxGrid,         \* set of list queries evaluated inside open transactions
     JoinCollapse,   \* BOOLEAN, see above
     NoLimitRaw,     \* BOOLEAN, see above
-    Faults          \* BOOLEAN: TxFail enabled
+    Faults,         \* BOOLEAN: TxFail enabled
+    MaxTxOps        \* operations grouped in one store.Update transaction
 
 IDs  == { IdOrder[i] : i \in DOMAIN IdOrder }
 Vals == { ValOrder[i] : i \in DOMAIN ValOrder }
 P == "p"
-Indexes == <<"id", "a">>        \* the order putTx/DeleteTx/RebuildTx walk s.indexes
+Indexes == <<"id", "a", "u">>   \* the order putTx/DeleteTx/RebuildTx walk s.indexes
 None == <<>>                    \* "no object"; a stored object is <<[id, a, v]>>
 
-IdRank(id) == CHOOSE i \in DOMAIN IdOrder : IdOrder[i] = id
-ValRank(a) == CHOOSE i \in DOMAIN ValOrder : ValOrder[i] = a
-SegRank(s) == CHOOSE i \in DOMAIN SegOrder : SegOrder[i] = s
+(* rank tables: constant-level, evaluated once by TLC *)
+IdRankTab  == [x \in IDs |-> CHOOSE i \in DOMAIN IdOrder : IdOrder[i] = x]
+ValRankTab == [x \in Vals |-> CHOOSE i \in DOMAIN ValOrder : ValOrder[i] = x]
+SegRankTab == [x \in { SegOrder[i] : i \in DOMAIN SegOrder } |-> CHOOSE i \in DOMAIN SegOrder : SegOrder[i] = x]
+IdRank(id) == IdRankTab[id]
+ValRank(a) == ValRankTab[a]
+SegRank(s) == SegRankTab[s]
 
 ASSUME /\ \A i, j \in DOMAIN IdOrder : i < j => SegRank(IdOrder[i]) < SegRank(IdOrder[j])
        /\ \A i, j \in DOMAIN ValOrder : i < j => SegRank(ValOrder[i]) < SegRank(ValOrder[j])
-       /\ \A s \in {P, "data", "indexes", "id", "a"} : \E i \in DOMAIN SegOrder : SegOrder[i] = s
+       /\ \A s \in {"p", "data", "indexes", "id", "a", "u"} : \E i \in DOMAIN SegOrder : SegOrder[i] = s
+
+(* value of the unique secondary index: distinct for distinct (id, a), empty for one of them *)
+UVal(o) == IF o.id = "a" /\ o.a = "x" THEN "" ELSE o.id \o o.a
+ASSUME \A id \in IDs, a \in Vals : \E i \in DOMAIN SegOrder : SegOrder[i] = UVal([id |-> id, a |-> a])
 
 Obj(id, a, v) == [id |-> id, a |-> a, v |-> v]
 MinOf(x, y) == IF x < y THEN x ELSE y
@@ -86,7 +103,7 @@ DataPrefix == <<P, "data">>
 DataKey(id) == DataPrefix \o <<id>>                       \* s.dataPrefix + id, no cleaning
 IndexPrefix(idx) == <<P, "indexes", idx>>                 \* indexKey(idx, "") + "/"
 (* Index.ValueOf: unique -> value ; non-unique -> value + "/" + id *)
-IndexValue(idx, o) == IF idx = "id" THEN <<o.id>> ELSE <<o.a, o.id>>
+IndexValue(idx, o) == CASE idx = "id" -> <<o.id>> [] idx = "a" -> <<o.a, o.id>> [] idx = "u" -> <<UVal(o)>>
 IndexKey(idx, o) ==
     IF JoinCollapse THEN Clean(IndexPrefix(idx) \o IndexValue(idx, o))
     ELSE IndexPrefix(idx) \o IndexValue(idx, o)
@@ -94,8 +111,15 @@ IndexKey(idx, o) ==
 HasPrefix(k, p) == Len(k) > Len(p) /\ SubSeq(k, 1, Len(p)) = p
 
 (* keys of m with the prefix, in key (= Bolt cursor) order *)
-SortKeys(S) ==      \* KeyLess is a strict total order: the i-th key has i-1 predecessors
-    [i \in 1..Cardinality(S) |-> CHOOSE k \in S : Cardinality({ k2 \in S : KeyLess(k2, k) }) = i - 1]
+(* integer code of a key: base-(N+1) number of its segment ranks, padded with 0 to 5 segments, *)
+(* so that code order = KeyLess order (a proper prefix sorts first); sorting compares integers *)
+KeyBase == Len(SegOrder) + 1
+KeyCode(k) ==
+    LET D(i) == IF i <= Len(k) THEN SegRank(k[i]) ELSE 0
+    IN  (((D(1) * KeyBase + D(2)) * KeyBase + D(3)) * KeyBase + D(4)) * KeyBase + D(5)
+SortKeys(S) ==
+    LET CK == { <<KeyCode(k), k>> : k \in S }
+    IN  [i \in 1..Cardinality(S) |-> (CHOOSE p \in CK : Cardinality({ q \in CK : q[1] < p[1] }) = i - 1)[2]]
 ListKeys(m, p) == SortKeys({ k \in DOMAIN m : HasPrefix(k, p) })
 
 MPut(m, k, val) == [x \in DOMAIN m \cup {k} |-> IF x = k THEN val ELSE m[x]]
@@ -186,11 +210,12 @@ RefApply(ob, op) ==
       [] op.op = "Delete"  -> [ob EXCEPT ![op.id] = None]
       [] op.op = "Rebuild" -> ob
 
-(* index order: id index by ID; index a by (a, ID) *)
+(* index order: id index by ID; index a by (a, ID); index u by its value *)
 RefBefore(idx, o1, o2) ==
-    IF idx = "id" THEN IdRank(o1.id) < IdRank(o2.id)
-    ELSE \/ ValRank(o1.a) < ValRank(o2.a)
-         \/ o1.a = o2.a /\ IdRank(o1.id) < IdRank(o2.id)
+    CASE idx = "id" -> IdRank(o1.id) < IdRank(o2.id)
+      [] idx = "a"  -> \/ ValRank(o1.a) < ValRank(o2.a)
+                       \/ o1.a = o2.a /\ IdRank(o1.id) < IdRank(o2.id)
+      [] idx = "u"  -> SegRank(UVal(o1)) < SegRank(UVal(o2))
 RefOrdered(ob, idx) ==
     LET S == { ob[id][1] : id \in { i \in DOMAIN ob : ob[i] # None } }
     IN  [i \in 1..Cardinality(S) |-> CHOOSE o \in S : Cardinality({ o2 \in S : RefBefore(idx, o2, o) }) = i - 1]
@@ -208,12 +233,14 @@ VARIABLES
     open,   \* a read-write transaction is open
     tx,     \* its private copy of the bucket (<<>> when none is open)
     pend,   \* writes the open transaction still has to issue
-    cur,    \* the operation the open transaction belongs to
+    cur,    \* the operations of the open transaction so far (the last one may still have writes pending)
     res,    \* result of the last finished operation: ok | exists | noexist | err | reopen | init
     objs    \* Ref: what the operations so far promise
 
 vars == <<kv, open, tx, pend, cur, res, objs>>
-NoOp == [op |-> "none", id |-> "", a |-> "", v |-> 0]
+NoOp == <<>>
+RECURSIVE FoldApply(_, _)
+FoldApply(ob, ops) == IF ops = <<>> THEN ob ELSE FoldApply(RefApply(ob, Head(ops)), Tail(ops))
 
 Ops == [op : {"Create", "Put", "Replace"}, id : IDs, a : Vals, v : Payloads]
        \cup [op : {"Delete"}, id : IDs, a : {""}, v : {0}]
@@ -227,8 +254,18 @@ Begin(op) ==
     /\ IF Rejected(kv, op) # "no"
        THEN /\ res' = Rejected(kv, op)          \* error before any write; DoUpdate rolls back
             /\ UNCHANGED <<kv, open, tx, pend, cur, objs>>
-       ELSE /\ open' = TRUE /\ tx' = kv /\ pend' = Writes(kv, op) /\ cur' = op /\ res' = "busy"
+       ELSE /\ open' = TRUE /\ tx' = kv /\ pend' = Writes(kv, op) /\ cur' = <<op>> /\ res' = "busy"
             /\ UNCHANGED <<kv, objs>>
+
+(* a further operation inside the same transaction: it reads the transaction's view; *)
+(* a rejection is an error the caller returns, so the whole transaction rolls back   *)
+Continue(op) ==
+    /\ open /\ pend = <<>> /\ Len(cur) < MaxTxOps
+    /\ IF Rejected(tx, op) # "no"
+       THEN /\ open' = FALSE /\ tx' = <<>> /\ pend' = <<>> /\ cur' = NoOp /\ res' = Rejected(tx, op)
+            /\ UNCHANGED <<kv, objs>>
+       ELSE /\ pend' = Writes(tx, op) /\ cur' = Append(cur, op)
+            /\ UNCHANGED <<kv, open, tx, res, objs>>
 
 TxWrite ==
     /\ open /\ pend # <<>>
@@ -243,14 +280,14 @@ TxFail ==                \* the next tx.Put/tx.Delete fails, or (pend = <<>>) tx
 Commit ==
     /\ open /\ pend = <<>>
     /\ kv' = tx /\ open' = FALSE /\ tx' = <<>> /\ cur' = NoOp /\ res' = "ok"
-    /\ objs' = RefApply(objs, cur)
+    /\ objs' = FoldApply(objs, cur)
     /\ UNCHANGED pend
 
 Reopen ==
     /\ open' = FALSE /\ tx' = <<>> /\ pend' = <<>> /\ cur' = NoOp /\ res' = "reopen"
     /\ UNCHANGED <<kv, objs>>
 
-Next == (\E op \in Ops : Begin(op)) \/ TxWrite \/ TxFail \/ Commit \/ Reopen
+Next == (\E op \in Ops : Begin(op) \/ Continue(op)) \/ TxWrite \/ TxFail \/ Commit \/ Reopen
 Spec == Init /\ [][Next]_vars
 
 (* ------------------------------ properties ----------------------------- *)
@@ -274,14 +311,13 @@ Bijection == Idle =>
          LET ks == ListKeys(kv, IndexPrefix(Indexes[i]))
              ord == RefOrdered(objs, Indexes[i])
          IN  [j \in DOMAIN ks |-> kv[ks[j]]] = [j \in DOMAIN ord |-> ord[j].id]
-    /\ Cardinality(DOMAIN kv) = 3 * Cardinality({ id \in IDs : objs[id] # None })
+    /\ Cardinality(DOMAIN kv) = (1 + Len(Indexes)) * Cardinality({ id \in IDs : objs[id] # None })
 
 (* pagination with offset/limit (incl. limit<0) and glob patterns is a slice of the list *)
 ListIsSlice == Idle =>
-    LET iid == IndexIds(kv, "id")  ia == IndexIds(kv, "a")
-        oid == RefOrdered(objs, "id")  oa == RefOrdered(objs, "a")
-    IN  \A q \in Grid :
-          ImplListFrom(kv, IF q.idx = "id" THEN iid ELSE ia, q) = RefListFrom(IF q.idx = "id" THEN oid ELSE oa, q)
+    LET ii == [x \in {"id", "a", "u"} |-> IndexIds(kv, x)]
+        oo == [x \in {"id", "a", "u"} |-> RefOrdered(objs, x)]
+    IN  \A q \in Grid : ImplListFrom(kv, ii[q.idx], q) = RefListFrom(oo[q.idx], q)
 
 (* the committed store changes only by the commit of a complete write sequence;  *)
 (* a rejected or failed operation leaves kv (and hence every read) as it was      *)
@@ -295,5 +331,13 @@ ReopenSame == [][ res' = "reopen" => (kv' = kv /\ objs' = objs) ]_vars
 (* a committed operation's effect is the promised one (Impl => Ref at every commit) *)
 CommitIsRef ==
     [][ (res' = "ok" /\ open) =>
-          \A id \in IDs : ImplGet(kv', id) = RefApply(objs, cur)[id] ]_vars
+          \A id \in IDs : ImplGet(kv', id) = FoldApply(objs, cur)[id] ]_vars
+
+(* inside a transaction the reads (GetTx, ListTx) see the transaction's own writes: *)
+(* between two operations of one store.Update they are those of the history so far  *)
+TxSeesOwnWrites ==
+    (open /\ pend = <<>>) =>
+        LET ob == FoldApply(objs, cur) IN
+        /\ \A id \in IDs : ImplGet(tx, id) = ob[id]
+        /\ \A q \in TxGrid : ImplList(tx, q) = RefList(ob, q)
 =============================================================================
